@@ -20,8 +20,10 @@ fn generate(rng: &mut Rng, index: u64) -> ConnScenario {
     // presented the genuine cookie (and was accepted), then this one presents the variant. Whatever the code
     // under simulation remembers about cookies it has seen is primed that way.
     let with_prior = rng.chance(1, 4);
-    let secret_cfg: Option<Vec<u8>> = match rng.below(9) {
+    let secret_cfg: Option<Vec<u8>> = match rng.below(10) {
         0 if with_prior => Some(rng.bytes(32)),
+        // secrets as operators write them: several lines, a trailing line break, separators
+        9 => Some((*rng.pick(&[&b"first-key\nsecond-key"[..], b"s3cret\n", b"\nleading", b"alpha,beta", b"part one part two", b"k1:k2:k3", b"\n"])).to_vec()),
         0 => None,
         1 => Some(vec![]),
         2 => Some(rng.bytes(3)),
@@ -92,7 +94,7 @@ fn generate(rng: &mut Rng, index: u64) -> ConnScenario {
     // the variant axis is enumerated by index so every truncation and bit flip is covered
     let nflip = valid.len() as u64 * 8;
     let ntrunc = valid.len() as u64 + 1;
-    let nother = 17u64;
+    let nother = 18u64;
     let v = if index % 4 == 3 { 0 } else { (index / 4 * 3 + index % 4) % (1 + ntrunc + nflip + nother) };
     let presented: Option<Vec<u8>> = if v == 0 {
         Some(valid.clone())
@@ -108,6 +110,22 @@ fn generate(rng: &mut Rng, index: u64) -> ConnScenario {
             0 => None,
             1 => Some(vec![]),
             2..=4 => Some(signed_cookie(&rng.bytes(32), &body)),
+            16 => {
+                // a key that is a piece of the configured secret (split at a line break or separator, a half, nothing at all)
+                let sec = signing_secret.clone();
+                let mut pieces: Vec<Vec<u8>> = vec![vec![], sec[..sec.len() / 2].to_vec(), sec[sec.len() / 2..].to_vec()];
+                for d in [b'\n', b',', b' ', b':'] {
+                    for part in sec.split(|b| *b == d) {
+                        pieces.push(part.to_vec());
+                    }
+                }
+                pieces.retain(|p| *p != sec);
+                if pieces.is_empty() {
+                    pieces.push(b"x".to_vec());
+                }
+                let key = rng.pick(&pieces).clone();
+                Some(signed_cookie(&key, &body))
+            }
             5 => {
                 // another secret that shares a long prefix with the configured one (last byte changed, one byte more, one byte less)
                 let mut other = signing_secret.clone();
